@@ -72,6 +72,15 @@ def make_content(rng, opts=None):
         extras.append(G(gid, name, desc(), rng.choice([0, 1])))
         for _ in range(rng.choice([0, 1, 3])):
             extras.append(rand_param_rec(rng, gid))
+    # one parameter record beyond 32 KiB (its next-record offset does not fit a SIGNED 16-bit word), with records after it
+    if o.get('big_record', rng.random() < 0.08):
+        gb, gl = ids[6], ids[7]
+        kind = rng.choice(['F', 'B', 'C', 'I'])
+        if kind == 'F': big = P(gb, b'TABLE', 'F', [100, 100], [rand_float_hex(rng)] * 3 + ['3f800000'] * 9997)
+        elif kind == 'B': big = P(gb, b'TABLE', 'B', [200, 200], [rng.choice([-128, -1, 0, 1, 127]) for _ in range(40000)])
+        elif kind == 'I': big = P(gb, b'TABLE', 'I', [255, 65], [rng.choice([-32768, -1, 0, 1, 32767]) for _ in range(255 * 65)])
+        else: big = P(gb, b'TABLE', 'C', [129, 255], [rstr(rng, rng.choice([0, 1, 128, 129])) for _ in range(255)])
+        extras += [G(gb, b'BIG', desc()), big, P(gb, b'AFTER', 'I', [], [7]), G(gl, b'LATER', desc()), P(gl, b'LAST', 'F', [2], ['3f800000', 'bf800000'])]
     groups = [point, analog, extras]
     order = o.get('order', rng.choice(['canonical', 'shuffled', 'params-first']))
     flat = point + analog + extras
@@ -80,6 +89,14 @@ def make_content(rng, opts=None):
     frames = []
     for _ in range(nframes):
         pts = [tuple(rand_float_hex(rng) for _ in range(4)) for _ in range(npoints)]
+        # points that mean something to OTHER programs (a missing marker stored as NaN,NaN,NaN or as 0,0,0 with residual -1):
+        # for this library they are four floats like any others
+        for k in range(npoints):
+            if rng.random() < 0.08:
+                pts[k] = rng.choice([('7fc00000', '7fc00000', '7fc00000', rand_float_hex(rng)), ('ffc00001', '7fa00001', '7fc00000', 'bf800000'),
+                                     ('00000000', '00000000', '00000000', 'bf800000'), ('80000000', '80000000', '80000000', 'bf800000'),
+                                     ('00000000', '80000000', '00000000', 'c2c80000'), ('00000000', '00000000', '00000000', '00000000'),
+                                     ('7fc00000', '3f800000', '7fc00000', 'bf800000')])
         an = [[rand_float_hex(rng) for _ in range(nchan)] for _ in range(nsub)]
         frames.append((pts, an))
     nev = rng.choice([0, 0, 3, 18])
